@@ -174,7 +174,10 @@ CtxSources == {"ctx", "ctxwarm"}
 SpawnKinds  == {"go", "spawn"}                    \* vm.cloneCallAsync
 HClonekinds == {"clone", "cclone"}                \* host: vm.Clone() + Call(hostCtx, ..) after Run / from a host callback
 ImportKinds == {"import_body", "import_fn"}       \* module body at import time / function of an imported module
-Kinds == SpawnKinds \cup HClonekinds \cup ImportKinds
+\* a host builtin keeps object.GetCloneCallFunc(ctx) and invokes it later with a context of its own that carries no
+\* OS (modules/http handlers do, with the request's context): only the OS the VM was configured with can reach it
+CloneCallKinds == {"clonecall"}
+Kinds == SpawnKinds \cup HClonekinds \cup ImportKinds \cup CloneCallKinds
 
 GetOS(vmos, ctxos)       == IF ctxos # None THEN ctxos ELSE IF vmos # None THEN vmos ELSE Real   \* vm.getOS
 InitContext(vmos, ctxos) == IF InitInstalls THEN GetOS(vmos, ctxos) ELSE ctxos                    \* vm.initContext
@@ -198,6 +201,7 @@ CanStart        == stack = <<>>
 CanVMClone      == stack # <<>> /\ ~pending /\ Len(stack) <= MaxDepth
 CanSpawn(k)     == pending /\ k \in SpawnKinds
 CanHostClone(k) == pending /\ k \in HClonekinds /\ (k = "clone" => Len(stack) = 1)   \* "clone": after Run has returned
+CanCloneCall(k) == pending /\ k \in CloneCallKinds /\ src \in {"withos", "withoswarm"}
 CanImport(k)    == stack # <<>> /\ ~pending /\ k \in ImportKinds /\ Len(stack) <= MaxDepth
 CanCall         == stack # <<>> /\ ~pending
 
@@ -228,6 +232,13 @@ HostClone(k) == /\ CanHostClone(k)
                 /\ pending' = FALSE
                 /\ UNCHANGED <<src, observed>>
 
+\* clone-call with a foreign context: the clone of the RUNNING VM, a context without an OS
+CloneCall(k) == /\ CanCloneCall(k)
+                /\ LET c == CloneVM(Top.vmos)
+                   IN stack' = Append(stack, [kind |-> k, vmos |-> c, ctxos |-> InitContext(c, None)])
+                /\ pending' = FALSE
+                /\ UNCHANGED <<src, observed>>
+
 \* import: vm.importModule evaluates the module in the same VM with the same context
 Import(k) == /\ CanImport(k)
              /\ stack' = Append(stack, [kind |-> k, vmos |-> Top.vmos, ctxos |-> Top.ctxos])
@@ -238,7 +249,7 @@ Call == /\ CanCall
         /\ observed' = BuiltinSees(Top.ctxos)
         /\ UNCHANGED <<src, stack, pending>>
 
-PNext == Start \/ VMClone \/ (\E k \in Kinds : Spawn(k) \/ HostClone(k) \/ Import(k)) \/ Call
+PNext == Start \/ VMClone \/ (\E k \in Kinds : Spawn(k) \/ HostClone(k) \/ CloneCall(k) \/ Import(k)) \/ Call
 
 Mediated == observed \in {None, Host}
 
